@@ -1,6 +1,7 @@
 package main
 
 import (
+	"fmt"
 	"sort"
 	"strconv"
 	"strings"
@@ -8,8 +9,10 @@ import (
 	cluster "github.com/envoyproxy/go-control-plane/envoy/config/cluster/v3"
 	route "github.com/envoyproxy/go-control-plane/envoy/config/route/v3"
 
+	"istio.io/istio/pilot/pkg/features"
 	"istio.io/istio/pilot/pkg/model"
 	"istio.io/istio/pilot/pkg/networking/core"
+	"istio.io/istio/pilot/pkg/xds/endpoints"
 	"verifharness/internal/wire"
 )
 
@@ -86,9 +89,193 @@ func (w *world) routeVirtualHosts(p *model.Proxy, withDomains bool) []string {
 	return out
 }
 
+var edsPorts = []int{80, 81, 8080, 9090}
+
+// edsAnswers: what the real EDS generator (endpoints.EndpointBuilder) answers to this proxy for the
+// cluster outbound|port||hostname of EVERY hostname of the mesh - also the ones outside its scope -
+// as "hostname:port=address,...".
+func (w *world) edsAnswers(p *model.Proxy) []string {
+	hosts := map[string]bool{}
+	for i := range w.svcs {
+		hosts[w.svcs[i].hostname] = true
+	}
+	var out []string
+	for h := range hosts {
+		for _, port := range edsPorts {
+			name := model.BuildSubsetKey(model.TrafficDirectionOutbound, "", hostName(h), port)
+			b := endpoints.NewEndpointBuilder(name, p, w.ps)
+			cla := b.BuildClusterLoadAssignment(w.env.EndpointIndex)
+			var addrs []string
+			for _, l := range cla.GetEndpoints() {
+				for _, e := range l.GetLbEndpoints() {
+					addrs = append(addrs, e.GetEndpoint().GetAddress().GetSocketAddress().GetAddress())
+				}
+			}
+			sort.Strings(addrs)
+			if len(addrs) > 0 {
+				out = append(out, fmt.Sprintf("%s:%d=%s", h, port, strings.Join(addrs, "+")))
+			}
+		}
+	}
+	sort.Strings(out)
+	return out
+}
+
+func (w *world) routerFor(ns string) *model.Proxy {
+	lbl := map[string]string{"istio": "ingressgateway"}
+	p := &model.Proxy{
+		Type:            model.Router,
+		ID:              "gw.test",
+		ConfigNamespace: ns,
+		DNSDomain:       ns + ".svc.cluster.local",
+		IPAddresses:     []string{"1.1.1.2"},
+		Labels:          lbl,
+		Metadata:        &model.NodeMetadata{Namespace: ns, Labels: lbl, IstioVersion: "1.23.0"},
+	}
+	p.IstioVersion = model.ParseIstioVersion(p.Metadata.IstioVersion)
+	p.SetSidecarScope(w.ps)
+	p.SetServiceTargets(w.env.ServiceDiscovery)
+	p.SetGatewaysForProxy(w.ps)
+	p.DiscoverIPMode()
+	return p
+}
+
+// oracleEDS: every endpoint EDS hands to the proxy belongs to a (hostname, namespace) key with a
+// service exported to the proxy's namespace, and that key is the one of the scope's service.
+func (w *world) oracleEDS(p *model.Proxy, ns string) string {
+	inScope := map[[2]string]bool{}
+	for _, s := range p.SidecarScope.Services() {
+		inScope[[2]string{string(s.Hostname), s.Attributes.Namespace}] = true
+	}
+	addrKey := map[string][2]string{}
+	for _, k := range w.keys() {
+		addrKey[w.keyAddr(k[0], k[1])] = k
+	}
+	for _, a := range w.edsAnswers(p) {
+		hp, addrs, _ := strings.Cut(a, "=")
+		for _, addr := range strings.Split(addrs, "+") {
+			k, ok := addrKey[addr]
+			if !ok {
+				return "eds-unknown-endpoint " + wire.Enc(a)
+			}
+			vis := false
+			for i := range w.svcs {
+				if w.svcs[i].hostname == k[0] && w.svcs[i].ns == k[1] && w.documentedVisible(&w.svcs[i], ns) {
+					vis = true
+				}
+			}
+			if !vis {
+				return "eds-endpoints-of-hidden-service " + wire.Enc(hp) + " " + ns
+			}
+			if !inScope[k] {
+				return "eds-endpoints-outside-scope " + wire.Enc(hp) + " " + ns
+			}
+		}
+	}
+	return ""
+}
+
+// oracleRouter: the outbound clusters of a router proxy name only hostnames of services exported to
+// its namespace (on the PushContext as built: PILOT_FILTER_GATEWAY_CLUSTER_CONFIG as currently set).
+func (w *world) oracleRouter(ns string) string {
+	p := w.routerFor(ns)
+	for _, c := range w.outboundClusters(p) {
+		f := strings.Split(c, "|")
+		if len(f) != 4 {
+			return "cluster-name-shape " + c
+		}
+		vis := false
+		for i := range w.svcs {
+			if w.svcs[i].hostname == f[3] && w.documentedVisible(&w.svcs[i], ns) {
+				vis = true
+			}
+		}
+		if !vis {
+			return "router-cluster-for-hidden-service " + wire.Enc(c) + " " + ns
+		}
+	}
+	return ""
+}
+
+// oracleRouterFiltered: the same with PILOT_FILTER_GATEWAY_CLUSTER_CONFIG on (the PushContext is
+// rebuilt, its gateway destination index only exists under the flag); called last for a case.
+func (w *world) oracleRouterFiltered(nss []string) string {
+	defer func(v bool) { features.FilterGatewayClusterConfig = v }(features.FilterGatewayClusterConfig)
+	features.FilterGatewayClusterConfig = true
+	w.build()
+	for _, ns := range nss {
+		if v := w.oracleRouter(ns); v != "" {
+			return "filtered-" + v
+		}
+	}
+	return ""
+}
+
+// oracleListeners: an outbound listener bound to the VIP of a declared service belongs to a service that
+// is exported to the proxy's namespace and part of the scope or of one of its egress listeners (whose
+// services are checked against the documented import rules by oracleOneScope); a wildcard-address
+// listener uses a port of such a service or of a declared egress listener.
+func (w *world) oracleListeners(p *model.Proxy, ns string, exp *sidecarSpec) string {
+	keys := map[[2]string]bool{}
+	ports := map[int]bool{}
+	add := func(l []*model.Service) {
+		for _, s := range l {
+			keys[[2]string{string(s.Hostname), s.Attributes.Namespace}] = true
+			for _, port := range s.Ports {
+				ports[port.Port] = true
+			}
+		}
+	}
+	add(p.SidecarScope.Services())
+	for _, l := range p.SidecarScope.EgressListeners {
+		add(l.Services())
+	}
+	if exp != nil {
+		for _, e := range exp.egress {
+			ports[e.port] = true
+		}
+	}
+	vip := map[string]*svcSpec{}
+	for i := range w.svcs {
+		vip[vipOf(i)] = &w.svcs[i]
+	}
+	for _, l := range configGen.BuildListeners(p, w.ps) {
+		sa := l.GetAddress().GetSocketAddress()
+		if sa == nil || l.Name == "virtualOutbound" || l.Name == "virtualInbound" {
+			continue
+		}
+		if sp := vip[sa.GetAddress()]; sp != nil {
+			if !keys[[2]string{sp.hostname, sp.ns}] {
+				return "listener-for-service-outside-scope " + wire.Enc(l.Name) + " " + ns
+			}
+			// some service of that key must be exported to ns
+			vis := false
+			for i := range w.svcs {
+				if w.svcs[i].hostname == sp.hostname && w.svcs[i].ns == sp.ns && w.documentedVisible(&w.svcs[i], ns) {
+					vis = true
+				}
+			}
+			if !vis {
+				return "listener-for-hidden-service " + wire.Enc(l.Name) + " " + ns
+			}
+			continue
+		}
+		if sa.GetAddress() == "0.0.0.0" && !ports[int(sa.GetPortValue())] {
+			return "listener-for-port-outside-scope " + wire.Enc(l.Name) + " " + ns
+		}
+	}
+	return ""
+}
+
 func (w *world) queryXDS(t []string) string {
+	if t[0] == "xdsgw" {
+		return "C=" + wire.EncList(w.outboundClusters(w.routerFor(wire.Dec(t[1]))))
+	}
 	lbl, _ := decLabels(t[2])
 	p := w.proxyFor(wire.Dec(t[1]), lbl)
+	if t[0] == "eds" {
+		return "E=" + wire.EncList(w.edsAnswers(p))
+	}
 	if t[0] == "routes" { // debugging aid, not generated
 		return wire.EncList(w.routeVirtualHosts(p, true))
 	}
@@ -129,6 +316,20 @@ func (w *world) oracleXDS(ns string, lbl map[string]string) string {
 		f := strings.Split(c, "|")
 		if len(f) != 4 {
 			return "cluster-name-shape " + c
+		}
+		if f[2] != "" && w.enhanced {
+			// a subset cluster comes from a DestinationRule subset: some rule declaring it is exported to ns
+			ok := false
+			for i := range w.drs {
+				for _, sn := range w.drs[i].subsets {
+					if sn == f[2] && w.drVisibleDoc(&w.drs[i], ns) {
+						ok = true
+					}
+				}
+			}
+			if !ok {
+				return "subset-cluster-from-unexported-rule " + wire.Enc(c) + " " + ns
+			}
 		}
 		k := hp{f[3], f[1]}
 		got[k] = true
@@ -189,5 +390,8 @@ func (w *world) oracleXDS(ns string, lbl map[string]string) string {
 			return "route-for-host-outside-scope " + wire.Enc(vh) + " " + ns
 		}
 	}
-	return ""
+	if v := w.oracleEDS(p, ns); v != "" {
+		return v
+	}
+	return w.oracleListeners(p, ns, w.expectedSidecar(ns, lbl))
 }
